@@ -576,11 +576,11 @@ func (r *Router) waitForHandlers() bool {
 	waitGroup.Add(1)
 	go func() {
 		defer waitGroup.Done()
+
+		// The handlers' loops have to end first: until then they may still
+		// start (and register in runningHandlersWg) handlers for messages that
+		// were already received from the subscriber.
 		r.handlersWg.Wait()
-	}()
-	waitGroup.Add(1)
-	go func() {
-		defer waitGroup.Done()
 
 		r.runningHandlersWgLock.Lock()
 		defer r.runningHandlersWgLock.Unlock()
